@@ -431,7 +431,7 @@ fn g_list_case(min: usize, max: usize) -> BS<ListCase> {
 }
 
 fn g_alist_case() -> BS<AlistCase> {
-    let name = prop_oneof![Just("a"), Just("b"), Just("key"), Just("nil"), Just("é"), Just("")].prop_map(|s| s.to_string());
+    let name = prop_oneof![Just("a"), Just("b"), Just("key"), Just("nil"), Just("é"), Just(""), Just("t"), Just("#nil"), Just("#t"), Just("()")].prop_map(|s| s.to_string());
     let cfg = ValueCfg::default_dialect(2, 6);
     let key = prop_oneof![
         3 => name.clone().prop_map(MV::Str),
@@ -440,6 +440,8 @@ fn g_alist_case() -> BS<AlistCase> {
         2 => (0u64..4).prop_map(MV::U),
         1 => prop_oneof![Just(MV::f(0.0)), Just(MV::f(-0.0)), Just(MV::f(1.5))],
         1 => g_atom(cfg),
+        // keys that are not names but are spelled like one
+        1 => prop_oneof![Just(MV::Nil), Just(MV::Null), Just(MV::Bool(true)), Just(MV::Bool(false)), Just(MV::Char('a' as u32)), Just(MV::Bytes(b"a".to_vec()))],
         1 => vec((0u64..3).prop_map(MV::U), 1..3).prop_map(MV::list),
     ];
     let entry = prop_oneof![
